@@ -227,3 +227,14 @@ func ZZ_C25_SigThreshold() {
 	zzsym.Assert(len(post.SigInfo) == N && post.Status, "all signatures are collected")
 	zzsym.Cover("threshold-done")
 }
+
+func ZZ_C25_SigThreshold_witness() {
+	db := zzNewCacheDB()
+	zzConsensusPool(db, 7)
+	id := zzsym.Bytes("id", 32)
+	emit := false
+	for i := 0; i < 5; i++ {
+		emit, _ = CheckSigns(zzNative(db, nil), id, []byte{byte(i)}, zzValidatorAddr(i))
+	}
+	zzsym.Assert(!emit, "witness: the fifth of seven signatures emits the event")
+}
